@@ -124,6 +124,8 @@ var c16Neg = []struct {
 	{"bad-accept", backendOpts{reply: "badaccept"}, ""},
 	{"bad-compression", backendOpts{reply: "badcompression"}, ""},
 	{"proxy-407", backendOpts{proxyResp: "407 Proxy Authentication Required"}, "httpproxy"},
+	{"proxy-407-no-reason", backendOpts{proxyResp: "407"}, "httpproxy"},
+	{"proxy-502", backendOpts{proxyResp: "502 Bad Gateway"}, "httpproxy"},
 	{"proxy-garbage", backendOpts{proxyResp: "garbage"}, "httpproxy"},
 	{"proxy-eof", backendOpts{proxyResp: "eof"}, "httpproxy"},
 	{"socks-refuse", backendOpts{socksRef: true}, "socks"},
